@@ -57,7 +57,7 @@ T_Leave ==
 T_Iter == T_Enter \/ T_Chunk \/ T_Leave
 T_Note        == IsEvent("Note") /\ UNCHANGED vars /\ NoIter
 
-TraceInit == Init /\ l = 1 /\ iters = << >> /\ idrift = 0 /\ TLCSet(7, 0)
+TraceInit == Init /\ l = 1 /\ iters = << >> /\ idrift = 0 /\ TLCSet(7, 0) /\ TLCSet(8, 0)
 
 TraceNext ==
     \/ T_Reset \/ T_NewPlanner \/ T_DropPlanner
@@ -69,12 +69,13 @@ TraceSpec == TraceInit /\ [][TraceNext]_tvars
 \* all events consumed?  Otherwise print the first event that no action accepts.
 TraceAccepted ==
     LET d == TLCGet("stats").diameter IN
-    IF d - 1 = Len(Rec) THEN PrintT(<<"TRACE-ACCEPTED", Len(Rec), "drift", TLCGet(7)>>)
+    IF d - 1 = Len(Rec) /\ TLCGet(8) = 0 THEN PrintT(<<"TRACE-ACCEPTED", Len(Rec), "drift", TLCGet(7)>>)
+    ELSE IF d - 1 = Len(Rec) THEN PrintT(<<"TRACE-REJECTED-AT", Len(Rec), ToJson([ev |-> "EndOfTrace", unclosed_calls |-> TLCGet(8)])>>) /\ FALSE
     ELSE /\ PrintT(<<"TRACE-REJECTED-AT", d, ToJson(Rec[d])>>)
          /\ FALSE
 
 \* remember the last drift value in a TLC register so the postcondition can report it
-DriftView == TLCSet(7, drift + idrift)
+DriftView == TLCSet(7, drift + idrift) /\ TLCSet(8, Cardinality(DOMAIN pending) + Len(planning))
 
 TraceInv == TypeOk /\ C04_Inv /\ C13_Inv /\ PendingInv /\ DriftView
 =============================================================================
